@@ -118,6 +118,13 @@ def schedule(src, n=2, rounds=5, closing=5, perturbations=1, delays=1, activitie
                     elif what == 'crash':
                         cl.crash(a)
                     elif what == 'restart':
+                        ida = cl.cores[a].ident
+                        if any(c.context.local_sequence_counter <= c.options.inactivity_ticks
+                               for c in cl.live() if c.ident != ida):
+                            # finding F22: the stealth restart is recognised (TICK counter going down) but the forced
+                            # inactivity (reception reference set to 0) cannot show on a peer whose own TICK counter is
+                            # still <= inactivity_ticks; the next TICK of the new incarnation re-arms the reference
+                            notes.add('restart-while-a-peer-is-in-its-first-ticks')
                         cl.restart(a)
                     elif what == 'partition':
                         cl.partition(a, b)
